@@ -214,3 +214,22 @@ def run(ctx, rep, tier):
     gotos = {e.a for tb in tbs if tb.get("FROM_END") for e in tb.events if e.kind == "GOTO"}
     for g in sorted(gotos):
         rep.check(g in labels, "C17.e", "CodegenCtx._generate_end_implementation", f"label for goto {g}", f"end() can contain `goto {g}` but defines no such label")
+
+
+def _shared(ctx, rep, tier):
+    rep.rule("C17.f", "End is a symbol of a state's alphabet: alphabets used to translate Else between states exclude only Else")
+    la = ctx.model.func("DFState.local_alphabet")
+    dflt = la.args.defaults
+    rep.check(len(dflt) == 1 and ast.unparse(dflt[0]) == "(DFTransition.Else,)", "C17.f", "DFState.local_alphabet", "default alphabet excludes only Else",
+              f"default `excluding` is {ast.unparse(dflt[0]) if dflt else None}: End drops out of foreign-else translations, so end-of-input reaching a handler that starts with "
+              "`wait end` / `end` is no longer re-dispatched after optimisation")
+    src = ast.unparse(la)
+    rep.check("if i in excluding:" in src and "local_alphabet.add(i)" in src, "C17.f", "DFState.local_alphabet", "collects every symbol of every transition", "local_alphabet body changed")
+
+
+_run0 = run
+
+
+def run(ctx, rep, tier):
+    _run0(ctx, rep, tier)
+    _shared(ctx, rep, tier)
